@@ -177,6 +177,13 @@ class ParamDict:
         self.tag = tag
 
 
+class _LocalFunc:
+    """a function defined inside the kernel being interpreted (closure over the defining environment)"""
+
+    def __init__(self, node, env):
+        self.node, self.env = node, env
+
+
 class Extractor:
     def __init__(self, repo, module_alias=None, max_depth=12):
         self.repo = repo
@@ -285,6 +292,10 @@ class Extractor:
                 pass
             return "fall", None
         if isinstance(st, (ast.Pass, ast.Import, ast.ImportFrom)):
+            return "fall", None
+        if isinstance(st, ast.FunctionDef) and not st.decorator_list and not st.args.vararg and not st.args.kwarg:
+            # a local helper: a closure over the enclosing environment, interpreted when it is called
+            env[st.name] = _LocalFunc(st, env)
             return "fall", None
         raise Unsupported(f"line {st.lineno}: statement {type(st).__name__}")
 
@@ -409,6 +420,27 @@ class Extractor:
             else:
                 args.append(self.eval(a, env, rel, depth))
         kwargs = {kw.arg: self.eval(kw.value, env, rel, depth) for kw in n.keywords if kw.arg}
+        if isinstance(n.func, ast.Name) and isinstance(env.get(fn), _LocalFunc):
+            lf = env[fn]
+            if depth > self.max_depth:
+                raise Unsupported("inlining depth exceeded")
+            params = [a.arg for a in lf.node.args.args]
+            defaults = dict(zip(params[len(params) - len(lf.node.args.defaults):], lf.node.args.defaults))
+            if len(args) > len(params) or any(k not in params for k in kwargs):
+                raise Unsupported(f"{fn}: arguments do not match the local helper")
+            inner = dict(lf.env)
+            inner.update(zip(params, args))
+            inner.update(kwargs)
+            for p_ in params:
+                if p_ not in inner or (p_ not in dict(zip(params, args)) and p_ not in kwargs and p_ in defaults):
+                    if p_ in defaults:
+                        inner[p_] = self.eval(defaults[p_], lf.env, rel, depth)
+                    elif p_ not in inner:
+                        raise Unsupported(f"{fn}: parameter {p_} not bound")
+            status, val = self.block(lf.node.body, inner, rel, depth + 1)
+            if status != "return":
+                return None
+            return val
         if fn == "abs":
             return ("abs", lift(args[0]))
         if fn == "len" and isinstance(args[0], (list, tuple)):
